@@ -90,6 +90,14 @@ def nodata_choice(rng, zones, values):
     if p < 0.65:
         return 'present', vf[int(rng.integers(0, len(vf)))].item()
     if p < 0.8:
+        if values.dtype.kind in 'iu' and rng.random() < 0.5:
+            # a nodata value the raster's integer type cannot hold (fractional, or out of range by a multiple of 2^bits): it
+            # equals no cell, although a cast to the raster's dtype would turn it into a value that is present
+            v = float(vf[int(rng.integers(0, len(vf)))])
+            bits = 8 * values.dtype.itemsize
+            if bits <= 32 and rng.random() < 0.5:
+                return 'absent_unrepresentable', v + float(rng.choice([-1, 1])) * 2.0 ** bits
+            return 'absent_unrepresentable', v + 0.5
         return 'absent', -98765
     zf = zones[np.isfinite(zones.astype('float64'))]
     if len(zf):
